@@ -24,20 +24,23 @@ CLAIMS = {
                  'out (additions and moves before deletions)',
 }
 OPTIONAL_CLAIMS = ('C09.reject', 'C09.order')
-GOALS = {'quick': ['nested compartment', 'agent with steps', 'combined update'],
+GOALS = {'quick': ['nested compartment', 'agent with steps', 'combined update',
+                   'operation issued by a step'],
          'thorough': ['nested compartment', 'agent with steps',
-                      'combined update', 'history of 2']}
+                      'combined update', 'history of 2',
+                      'operation issued by a step']}
 STUBS = ['idle stub processes / steps inside the agents (so that nothing but the '
          'structural update changes the hierarchy); an actor process that '
          'issues the update and snapshots the store just before']
 ASSUMPTIONS = ['pre-states are produced by a generator (1-2 agents in loc1, one '
                'in loc2, optional nested compartment, optional flow step and '
                'legacy deriver per agent, symbolic values); every operation is '
-               'applied through the engine by a process update']
+               'applied through the engine by the update of a process or of a '
+               'flow step (symbolic flag)']
 BOUNDS = {'quick': '13 single/combined operations x generated pre-states, one '
                    'step', 'thorough': 'histories of 2 steps over the same '
                                        'operations'}
-OUTSIDE = '_reduce; operations issued by steps; deeper nesting than 2'
+OUTSIDE = '_reduce; deeper nesting than 2'
 
 CTX = {}
 FULL = {'s': {'x': {'_default': 0}, 'm': {'_default': 4}}}
@@ -91,6 +94,18 @@ class Actor(Process):
         op, self.pending = self.pending, None
         CTX['before'] = snap(CTX['engine'].state)
         return op
+
+
+class ActorStep(Step):
+    """the same actor as a flow step: the structural update is issued during
+    a step phase"""
+
+    def __init__(self, parameters):
+        super().__init__(parameters)
+        self.pending = None
+
+    ports_schema = Actor.ports_schema
+    next_update = Actor.next_update
 
 
 def snap(store):
@@ -252,9 +267,13 @@ def body(ctx, cfg):
     a1 = agent(with_steps, nested)
     a2 = agent()
     b1 = agent()
-    actor = Actor({})
+    by_step = ctx.flag('by_step')
+    actor = ActorStep({}) if by_step else Actor({})
     processes = {'actor': actor, 'loc1': {'a1': a1['processes']},
                  'loc2': {'b1': b1['processes']}}
+    if by_step:
+        del processes['actor']
+        ctx.goal('operation issued by a step')
     topology = {'actor': {'loc1': ('loc1',), 'loc2': ('loc2',),
                           'counts': ('counts',)},
                 'loc1': {'a1': a1['topology']}, 'loc2': {'b1': b1['topology']}}
@@ -270,7 +289,10 @@ def body(ctx, cfg):
         topology['loc1']['a2'] = a2['topology']
         init['loc1']['a2'] = {'s': {'x': vals['a2']}}
     kwargs = {}
-    if with_steps:
+    if by_step:
+        steps['actor'] = actor
+        flow['actor'] = []
+    if with_steps or by_step:
         kwargs = dict(steps=steps, flow=flow)
     e = Engine(processes=processes, topology=topology, initial_state=init,
                display_info=False, emitter='null', **kwargs)
